@@ -64,6 +64,11 @@ def _inject(ch):
     stage = "parse"
     bad = ch.pick(_bad_indices(tsize))
     good = ch.pick([0, tsize - 1])
+    fractional = False
+    if kind in ("index", "alias-index") and ch.int(0, 5) == 0:
+        # a non-integer index value (only expressible through a let, an override or a macro argument)
+        bad = ch.pick([0.5, 1.5, tsize - 0.5, -0.5])
+        fractional = True
     desc = {}
 
     def add_section(p, arg):
@@ -84,7 +89,7 @@ def _inject(ch):
         add_section(fault, ["ix", regname, 0])
         add_section(twin, ["ix", regname, 0])
     elif kind == "index":
-        via = ch.pick(["literal", "let", "override", "macro-index", "macro-array"])
+        via = ch.pick(["let", "override", "macro-index"] if fractional else ["literal", "let", "override", "macro-index", "macro-array"])
         desc = {"target": tname, "size": tsize, "bad": bad, "good": good}
         if via == "literal":
             add_section(fault, ["ix", tname, bad])
@@ -115,7 +120,7 @@ def _inject(ch):
                 p["body"].append(["sub", None, [["g", "mzz", [["id", tname]]]]])
             stage = "macro"
     elif kind == "alias-index":
-        via = ch.pick(["literal", "let", "override"])
+        via = ch.pick(["let", "override"] if fractional else ["literal", "let", "override"])
         desc = {"target": tname, "size": tsize, "bad": bad, "good": good}
         if via == "literal":
             fault["maps"].append(["zq", tname, ["i", bad]])
@@ -235,10 +240,15 @@ def references(case):
         # against is let-valued (the reference tracks what the offending check depends on)
         if STAGES.index(inv.stage) > STAGES.index(case["stage"]):
             case = dict(case, stage=inv.stage)
-    expected_kinds = {"index": {"index"}, "alias-index": {"index"}, "alias-slice": {"slice"}, "not-register": {"not-a-register", "undefined"}, "register-size": {"register-size", "non-integer"}}
+    expected_kinds = {"index": {"index", "non-integer"}, "alias-index": {"index", "non-integer"}, "alias-slice": {"slice"}, "not-register": {"not-a-register", "undefined"}, "register-size": {"register-size", "non-integer"}}
     if ref_kind not in expected_kinds.get(case["kind"], ()):
         raise Skip()  # not the injected fault any more (only happens to shrunk / hand-edited cases)
-    if case["kind"] in ("index", "alias-index") and not (is_int(case["desc"].get("bad")) and is_int(case["desc"].get("size")) and case["desc"]["size"] >= 1 and not 0 <= case["desc"]["bad"] < case["desc"]["size"]):
+    b_ = case["desc"].get("bad")
+    if case["kind"] in ("index", "alias-index") and not (
+        is_int(case["desc"].get("size"))
+        and case["desc"]["size"] >= 1
+        and ((is_int(b_) and not 0 <= b_ < case["desc"]["size"]) or (isinstance(b_, float) and b_ != int(b_)))
+    ):
         raise Skip()
     try:
         rt = Ref(twin, case["env_twin"])
@@ -274,6 +284,8 @@ def references(case):
 
 def _sign(case):
     b = case["desc"].get("bad")
+    if isinstance(b, float):
+        return "fractional"
     if is_int(b):
         return "negative" if b < 0 else "zero-step" if b == 0 else "too-large"
     return "n/a"
